@@ -90,6 +90,12 @@ Qed.
 Lemma Hd_of : prefixes_delim_safe rs d = true -> H_d d rs.
 Proof. unfold prefixes_delim_safe, H_d. intros H r Hr. rewrite forallb_forall in H. auto. Qed.
 
+Lemma In_norm_all x l : In x l -> In x (norm_all l).
+Proof.
+  destruct l as [|a r]; [auto|]. cbn [norm_all]. intros [->|H]; [left; reflexivity|right].
+  eapply Permutation.Permutation_in; [symmetry; apply (sort_perm str_leb)|exact H].
+Qed.
+
 (* ---- C03 ---- *)
 Lemma law_lossless_model u : prefixes_delim_safe rs d = true -> law_C03_lossless z u = true.
 Proof.
@@ -99,7 +105,7 @@ Proof.
   apply andb_true_iff. split.
   - destruct (find_obs (q_expand_all x) z) as [v|] eqn:F; [|reflexivity].
     apply (find_obs_sub c B _ _ _ (u_expand_all x)) in F. subst v. simpl. rewrite El. simpl.
-    apply existsb_exists. exists (VStr u). split; [apply in_map; auto|apply val_eqb_refl].
+    apply existsb_exists. exists (VStr u). split; [apply in_map; apply In_norm_all; auto|apply val_eqb_refl].
   - destruct (get_ostr (q_expand x) z) as [a|] eqn:F1; [|reflexivity].
     destruct (get_ostr (q_std_uri u) z) as [b|] eqn:F2; [|reflexivity].
     apply g_expand in F1. apply g_std_uri in F2. simpl.
